@@ -522,9 +522,9 @@ theorem runHooks_single_is_forced [DecidableEq κ] (h : Hook κ α) (d : Drv)
 per-hook decisions (each reachable unforced) that has at least one non-trivial component is produced
 by some tape.  The two-pass tape-framing argument itself is proved for arbitrary hook kinds
 (`runHooks_reaches_every_framed_vector`, from per-hook `HookTarget` facts); the statement below is
-proved for all tick hook kinds except `KeyedSingletonHook` (`runHooks_reaches_every_vector_partial`);
-what is missing for the full statement is the framed decision space (`HookTarget`) of
-`KeyedSingletonHook` and of the `TopLevel*` hooks. -/
+proved for all hook kinds that occur in ticks (`runHooks_reaches_every_vector_partial`); what is
+missing for the full statement is the framed decision space (`HookTarget`) of the `TopLevel*` hooks
+(observations: always resolved alone). -/
 def runHooksReachesEveryVectorStatement (κ α : Type) [DecidableEq κ] : Prop :=
   ∀ (hs : List (Hook κ α)) (tapes : List (List Nat)) (res : List (Bool × Hook κ α × List (Msg κ α))),
     (∀ h ∈ hs, h.cur = none) → tapes.length = hs.length → res.length = hs.length →
@@ -1524,8 +1524,166 @@ theorem hookTarget_keyedNo [DecidableEq κ] {m : KMap κ α} {d d1 : Drv} {nt : 
       (aux_kmapAllEmpty_count hcan)
     simp [hntv, this]
 
+/-! ### KeyedSingletonHook: every per-key combination of unchanged / withheld / buffered version -/
+
+theorem aux_nonemptyKeyCount_cons_le {k : κ} {q : List α} {m : KMap κ α} :
+    nonemptyKeyCount m ≤ nonemptyKeyCount ((k, q) :: m) := by
+  by_cases hq : q.isEmpty = true
+  · rw [aux_nonemptyKeyCount_cons_empty hq]; exact Nat.le_refl _
+  · rw [aux_nonemptyKeyCount_cons_nonempty hq]; omega
+
+theorem aux_kSnapRel_fresh_nonempty [DecidableEq κ] {last last' : List (κ × α)} {m m' : KMap κ α}
+    {rel : List (κ × α × Bool)} (h : KSnapRel last m rel m' last') :
+    rel.any (fun e => e.2.2) = true → 0 < nonemptyKeyCount m := by
+  induction h with
+  | nil => intro h; simp at h
+  | unchanged _ _ ih =>
+    intro h
+    simp only [List.any_cons, Bool.false_or] at h
+    exact Nat.lt_of_lt_of_le (ih h) aux_nonemptyKeyCount_cons_le
+  | withheld _ _ _ ih =>
+    intro h
+    exact Nat.lt_of_lt_of_le (ih h) aux_nonemptyKeyCount_cons_le
+  | @fresh last k skipped x q' m0 rel0 m0' last0' _ _ =>
+    intro _
+    have hq : ¬ (skipped ++ x :: q').isEmpty = true := by simp
+    rw [aux_nonemptyKeyCount_cons_nonempty hq]; omega
+
+/-- every decision of the shape `KSnapRel` (per key: unchanged / withheld / a buffered version, older
+ones dropped) — with a new snapshot for some key when forced — is produced by a tape prefix -/
+theorem aux_keyedSing_framed [DecidableEq κ] {last last' : List (κ × α)} {m m' : KMap κ α}
+    {rel : List (κ × α × Bool)} (h : KSnapRel last m rel m' last') :
+    ∀ (force : Bool) (log : List Call), (force = true → rel.any (fun e => e.2.2) = true) →
+    ∃ tape log', ∀ rest, keyedSingLoop m (nonemptyKeyCount m) force last ⟨tape ++ rest, log⟩
+      = some (rel, m', last', rel.any (fun e => e.2.2), ⟨rest, log'⟩) := by
+  induction h with
+  | nil => intro force log _; exact ⟨[], log, fun rest => by simp [keyedSingLoop]⟩
+  | @unchanged last k q l m0 rel0 m0' last0' hl hrest ih =>
+    intro force log hf
+    have hf0 : force = true → rel0.any (fun e => e.2.2) = true := by
+      intro h; simpa using hf h
+    by_cases hq : q.isEmpty = true
+    · obtain ⟨tape, log', ht⟩ := ih force log hf0
+      refine ⟨tape, log', fun rest => ?_⟩
+      unfold keyedSingLoop
+      simp only [hq, ↓reduceIte, hl, aux_nonemptyKeyCount_cons_empty (k := k) (rest := m0) hq, ht rest,
+        List.any_cons, Bool.false_or]
+    · have hcnt := aux_nonemptyKeyCount_cons_nonempty (k := k) (rest := m0) hq
+      have hnd : (force && nonemptyKeyCount m0 == 0) = false := by
+        cases hfc : force with
+        | false => simp
+        | true =>
+          have := aux_kSnapRel_fresh_nonempty hrest (hf0 hfc)
+          have : (nonemptyKeyCount m0 == 0) = false := by simp; omega
+          simp [this]
+      obtain ⟨tape, log', ht⟩ := ih force (.b true :: log) hf0
+      refine ⟨1 :: tape, log', fun rest => ?_⟩
+      unfold keyedSingLoop
+      have hb := aux_boolIf_hit true log (tape ++ rest)
+      simp only [↓reduceIte] at hb
+      simp only [hq, Bool.false_eq_true, ↓reduceIte, hcnt, Nat.add_sub_cancel, hnd, Bool.not_false, hl,
+        Option.isSome_some, Bool.and_self, List.cons_append, hb, ht rest, List.any_cons, Bool.false_or]
+  | @withheld last k q m0 rel0 m0' last0' hl hne hrest ih =>
+    intro force log hf
+    have hq : ¬ q.isEmpty = true := by simpa using hne
+    have hcnt := aux_nonemptyKeyCount_cons_nonempty (k := k) (rest := m0) hq
+    have hnd : (force && nonemptyKeyCount m0 == 0) = false := by
+      cases hfc : force with
+      | false => simp
+      | true =>
+        have := aux_kSnapRel_fresh_nonempty hrest (hf hfc)
+        have : (nonemptyKeyCount m0 == 0) = false := by simp; omega
+        simp [this]
+    obtain ⟨tape, log', ht⟩ := ih force (.b true :: log) hf
+    refine ⟨1 :: tape, log', fun rest => ?_⟩
+    unfold keyedSingLoop
+    have hb := aux_boolIf_hit true log (tape ++ rest)
+    simp only [↓reduceIte] at hb
+    simp only [hq, Bool.false_eq_true, ↓reduceIte, hcnt, Nat.add_sub_cancel, hnd, Bool.not_false, hl,
+      Option.isSome_none, Bool.and_false, aux_boolIf_false, Option.isNone_none, Bool.and_self,
+      List.cons_append, hb, ht rest]
+  | @fresh last k skipped x q' m0 rel0 m0' last0' hrest ih =>
+    intro force log hf
+    have hq : ¬ (skipped ++ x :: q').isEmpty = true := by simp
+    have hcnt := aux_nonemptyKeyCount_cons_nonempty (k := k) (rest := m0) hq
+    have hlen : skipped.length < (skipped ++ x :: q').length := by simp
+    have hdrop : (skipped ++ x :: q').drop skipped.length = x :: q' := by simp
+    have hidx := fun log0 rest0 => aux_natEx_hit 0 (skipped ++ x :: q').length skipped.length log0 rest0
+      (Nat.zero_le _) hlen
+    simp only [Nat.sub_zero] at hidx
+    cases hnd : (force && nonemptyKeyCount m0 == 0) with
+    | true =>
+      -- the forced new snapshot: no boolean is drawn
+      obtain ⟨tape, log', ht⟩ := ih false (.u 0 ((skipped ++ x :: q').length - 1) skipped.length :: log) (by simp)
+      refine ⟨skipped.length :: tape, log', fun rest => ?_⟩
+      unfold keyedSingLoop
+      simp only [hq, Bool.false_eq_true, ↓reduceIte, hcnt, Nat.add_sub_cancel, hnd, Bool.not_true,
+        Bool.false_and, aux_boolIf_false, List.cons_append, hidx, hdrop, ht rest, List.any_cons, Bool.true_or]
+    | false =>
+      cases hl : lookup k last with
+      | some l =>
+        obtain ⟨tape, log', ht⟩ := ih false
+          (.u 0 ((skipped ++ x :: q').length - 1) skipped.length :: .b false :: log) (by simp)
+        refine ⟨0 :: skipped.length :: tape, log', fun rest => ?_⟩
+        unfold keyedSingLoop
+        have hb := aux_boolIf_hit false log (skipped.length :: (tape ++ rest))
+        simp only [Bool.false_eq_true, ↓reduceIte] at hb
+        simp only [hq, Bool.false_eq_true, ↓reduceIte, hcnt, Nat.add_sub_cancel, hnd, Bool.not_false, hl,
+          Option.isSome_some, Bool.and_self, List.cons_append, hb, Option.isNone_some, Bool.and_false,
+          aux_boolIf_false, hidx, hdrop, ht rest, List.any_cons, Bool.true_or]
+      | none =>
+        obtain ⟨tape, log', ht⟩ := ih false
+          (.u 0 ((skipped ++ x :: q').length - 1) skipped.length :: .b false :: log) (by simp)
+        refine ⟨0 :: skipped.length :: tape, log', fun rest => ?_⟩
+        unfold keyedSingLoop
+        have hb := aux_boolIf_hit false log (skipped.length :: (tape ++ rest))
+        simp only [Bool.false_eq_true, ↓reduceIte] at hb
+        simp only [hq, Bool.false_eq_true, ↓reduceIte, hcnt, Nat.add_sub_cancel, hnd, Bool.not_false, hl,
+          Option.isSome_none, Bool.and_false, aux_boolIf_false, Option.isNone_none, Bool.and_self,
+          List.cons_append, hb, hidx, hdrop, ht rest, List.any_cons, Bool.true_or]
+
+
+/-- completeness for `KeyedSingletonHook` in plain form: every decision of shape `KSnapRel` is reached
+by some tape (with a new snapshot for some key when forced) -/
+theorem keyedSingleton_every_decision_reachable [DecidableEq κ] {last last' : List (κ × α)} {m m' : KMap κ α}
+    {rel : List (κ × α × Bool)} (h : KSnapRel last m rel m' last') (force : Bool) (log : List Call)
+    (hf : force = true → rel.any (fun e => e.2.2) = true) :
+    ∃ tape d', (Hook.keyedSingleton m none last).auto ⟨tape, log⟩ force
+      = some (rel.any (fun e => e.2.2), .keyedSingleton m' (some rel) last', d') := by
+  obtain ⟨tape, log', ht⟩ := aux_keyedSing_framed h force log hf
+  refine ⟨tape, ⟨[], log'⟩, ?_⟩
+  have := ht []
+  simp only [List.append_nil] at this
+  simp [Hook.auto, this]
+
+theorem hookTarget_keyedSingleton [DecidableEq κ] {m : KMap κ α} {last : List (κ × α)} {d d1 : Drv} {nt : Bool}
+    {h1 h2 : Hook κ α} {out : List (Msg κ α)}
+    (ha : (Hook.keyedSingleton m none last).auto d false = some (nt, h1, d1)) (hr : h1.release = some (h2, out)) :
+    HookTarget (Hook.keyedSingleton m none last) ⟨nt, h1, h2, out⟩ := by
+  simp only [Hook.auto, Option.map_eq_some_iff] at ha
+  obtain ⟨⟨r1, m1, l1, nt1, d1'⟩, hh, heq⟩ := ha
+  simp only [Prod.mk.injEq] at heq
+  obtain ⟨rfl, rfl, rfl⟩ := heq
+  obtain ⟨hshape, hnt⟩ := keyedSingleton_release_shape _ _ _ _ _ hh
+  have reach : ∀ f : Bool, (f = true → r1.any (fun e => e.2.2) = true) →
+      FramedReach (Hook.keyedSingleton m none last) f nt1 (.keyedSingleton m1 (some r1) l1) := by
+    intro f hf log
+    obtain ⟨tape, log', ht⟩ := aux_keyedSing_framed hshape f log hf
+    exact ⟨tape, log', fun rest => by simp [Hook.auto, ht rest, hnt]⟩
+  refine ⟨rfl, reach false (by simp), ?_, hr, ?_⟩
+  · intro hn
+    simp only at hn
+    have := reach true (fun _ => by rw [← hnt]; exact hn)
+    rwa [hn] at this
+  · intro hcan
+    simp only [Hook.canNT, Bool.not_eq_eq_eq_not, Bool.not_false] at hcan
+    have hz := aux_kmapAllEmpty_count hcan
+    cases hany : r1.any (fun e => e.2.2) with
+    | false => simp [hnt, hany]
+    | true => have := aux_kSnapRel_fresh_nonempty hshape hany; omega
+
 /-- hook kinds whose framed decision space is proved: every hook that `batch` / `snapshot` put into a
-tick except `KeyedSingletonHook` (the `TopLevel*` hooks are observations: one hook per `run_hooks`) -/
+tick (the `TopLevel*` hooks are observations: one hook per `run_hooks` call) -/
 def Hook.framable : Hook κ α → Bool
   | .streamTotal _ _ => true
   | .streamNo _ _ => true
@@ -1533,6 +1691,7 @@ def Hook.framable : Hook κ α → Bool
   | .keyedNo _ _ => true
   | .singleton _ => true
   | .passthrough _ _ _ => true
+  | .keyedSingleton _ _ _ => true
   | _ => false
 
 /-- every decision an idle framable hook takes on *some* tape is in its framed decision space -/
@@ -1558,7 +1717,9 @@ theorem hookTarget_of_decision [DecidableEq κ] (h : Hook κ α) (hfr : h.framab
   | passthrough q r last =>
     have : r = none := by simpa [Hook.cur] using hidle
     subst this; exact hookTarget_passthrough ha hr
-  | keyedSingleton _ _ _ => simp [Hook.framable] at hfr
+  | keyedSingleton m r last =>
+    have : r = none := by simpa [Hook.cur] using hidle
+    subst this; exact hookTarget_keyedSingleton ha hr
   | tlOrder _ _ => simp [Hook.framable] at hfr
   | tlFold _ _ => simp [Hook.framable] at hfr
   | tlKeyedOrder _ _ => simp [Hook.framable] at hfr
@@ -1596,12 +1757,13 @@ theorem aux_targets_of_index [DecidableEq κ] : ∀ (hs : List (Hook κ α)) (re
           exact ⟨t', r', h1', d1', by simpa using a, by simpa using b, c⟩)
       exact ⟨_ :: ts, .cons hht i1, by simp [i2], by simp [i3], by simp [i4]⟩
 
-/-- The proved part of `runHooksReachesEveryVectorStatement`: the full statement for ticks made of
-`StreamHook` (both orders), `KeyedStreamHook` (both orders), `SingletonHook` and
-`PassthroughSingletonHook` — every vector of per-hook decisions (each taken on some tape, unforced)
-with a non-trivial component is produced by `run_hooks` on some tape.  Missing for the full
-statement: the framed decision space of `KeyedSingletonHook` and of the `TopLevel*` hooks (the latter
-never share a `run_hooks` call: one observation = one hook, `runHooks_single_is_forced`). -/
+/-- The proved part of `runHooksReachesEveryVectorStatement`: the full statement for ticks made of the
+hooks the builder puts into ticks — `StreamHook` (both orders), `KeyedStreamHook` (both orders),
+`SingletonHook`, `PassthroughSingletonHook`, `KeyedSingletonHook` — every vector of per-hook
+decisions (each taken on some tape, unforced) with a non-trivial component is produced by `run_hooks`
+on some tape.  Missing for the full statement (arbitrary hook lists): the framed decision space of
+the six `TopLevel*` hooks, which never share a `run_hooks` call (one observation = one hook,
+`runHooks_single_is_forced`). -/
 theorem runHooks_reaches_every_vector_partial [DecidableEq κ]
     (hs : List (Hook κ α)) (tapes : List (List Nat)) (res : List (Bool × Hook κ α × List (Msg κ α)))
     (hfr : ∀ h ∈ hs, h.framable = true)
@@ -1635,6 +1797,139 @@ example : ∃ tape d', runHooks [Hook.streamTotal (κ := Nat) [10, 20] none, .pa
       | 0, _ => exact ⟨[2], _, .streamTotal [] (some [10, 20]), ⟨[], [.u 0 2 2]⟩, rfl, rfl, rfl, rfl⟩
       | 1, _ => exact ⟨[], _, .passthrough [] (some (0, false)) (some 0), ⟨[], []⟩, rfl, rfl, rfl, rfl⟩)
     ⟨_, List.mem_cons_self .., rfl⟩
+
+
+/-! ### keyed top-level hooks: every single release -/
+
+/-- `TopLevelKeyedStreamOrderHook`: every pending item of every non-empty key can be the one released
+next (and "release nothing" when not forced) -/
+theorem tlKeyedOrder_every_item_reachable [DecidableEq κ] (m : KMap κ α) (force : Bool) (log : List Call)
+    (keyIdx itemIdx qlen : Nat) (key : κ) (item : α) (m' : KMap κ α)
+    (hk : (nonemptyKeys m)[keyIdx]? = some (key, qlen)) (hi : itemIdx < qlen)
+    (hrem : removeAt key itemIdx m = some (item, m')) :
+    ∃ tape d', tlKeyedOrderAuto m ⟨tape, log⟩ force = some ([(key, item)], m', true, d') := by
+  have hklen : keyIdx < (nonemptyKeys m).length := by
+    rcases Nat.lt_or_ge keyIdx (nonemptyKeys m).length with h | h
+    · exact h
+    · simp [List.getElem?_eq_none h] at hk
+  have hne : (nonemptyKeys m).isEmpty = false := by
+    cases hq : nonemptyKeys m with
+    | nil => simp [hq] at hklen
+    | cons _ _ => simp
+  cases force with
+  | true =>
+    refine ⟨[keyIdx, itemIdx], ?_⟩
+    unfold tlKeyedOrderAuto
+    simp only [hne, Bool.false_eq_true, ↓reduceIte, Bool.not_true, aux_boolIf_false]
+    have h1 := aux_natEx_hit 0 (nonemptyKeys m).length keyIdx log [itemIdx] (Nat.zero_le _) hklen
+    have h2 := aux_natEx_hit 0 qlen itemIdx (.u 0 ((nonemptyKeys m).length - 1) keyIdx :: log) [] (Nat.zero_le _) hi
+    simp only [Nat.sub_zero] at h1 h2
+    simp only [h1, hk, h2, hrem]
+    exact ⟨_, rfl⟩
+  | false =>
+    refine ⟨[0, keyIdx, itemIdx], ?_⟩
+    unfold tlKeyedOrderAuto
+    simp only [hne, Bool.false_eq_true, ↓reduceIte, Bool.not_false]
+    have hb := aux_boolIf_hit false log [keyIdx, itemIdx]
+    simp only [Bool.false_eq_true, ↓reduceIte] at hb
+    have h1 := aux_natEx_hit 0 (nonemptyKeys m).length keyIdx (.b false :: log) [itemIdx] (Nat.zero_le _) hklen
+    have h2 := aux_natEx_hit 0 qlen itemIdx (.u 0 ((nonemptyKeys m).length - 1) keyIdx :: .b false :: log) []
+      (Nat.zero_le _) hi
+    simp only [Nat.sub_zero] at h1 h2
+    simp only [hb, Bool.false_eq_true, ↓reduceIte, h1, hk, h2, hrem]
+    exact ⟨_, rfl⟩
+
+/-- `TopLevelPartiallyOrderedStreamHook`: the front item of every non-empty key can be released next -/
+theorem tlPartial_every_front_reachable [DecidableEq κ] (m : KMap κ α) (force : Bool) (log : List Call)
+    (keyIdx qlen : Nat) (key : κ) (item : α) (m' : KMap κ α)
+    (hk : (nonemptyKeys m)[keyIdx]? = some (key, qlen))
+    (hrem : removeAt key 0 m = some (item, m')) :
+    ∃ tape d', tlPartialAuto m ⟨tape, log⟩ force = some ([(key, item)], m', true, d') := by
+  have hklen : keyIdx < (nonemptyKeys m).length := by
+    rcases Nat.lt_or_ge keyIdx (nonemptyKeys m).length with h | h
+    · exact h
+    · simp [List.getElem?_eq_none h] at hk
+  have hne : (nonemptyKeys m).isEmpty = false := by
+    cases hq : nonemptyKeys m with
+    | nil => simp [hq] at hklen
+    | cons _ _ => simp
+  cases force with
+  | true =>
+    refine ⟨[keyIdx], ?_⟩
+    unfold tlPartialAuto
+    simp only [hne, Bool.false_eq_true, ↓reduceIte, Bool.not_true, aux_boolIf_false]
+    have h1 := aux_natEx_hit 0 (nonemptyKeys m).length keyIdx log [] (Nat.zero_le _) hklen
+    simp only [Nat.sub_zero] at h1
+    simp only [h1, hk, hrem]
+    exact ⟨_, rfl⟩
+  | false =>
+    refine ⟨[0, keyIdx], ?_⟩
+    unfold tlPartialAuto
+    simp only [hne, Bool.false_eq_true, ↓reduceIte, Bool.not_false]
+    have hb := aux_boolIf_hit false log [keyIdx]
+    simp only [Bool.false_eq_true, ↓reduceIte] at hb
+    have h1 := aux_natEx_hit 0 (nonemptyKeys m).length keyIdx (.b false :: log) [] (Nat.zero_le _) hklen
+    simp only [Nat.sub_zero] at h1
+    simp only [hb, Bool.false_eq_true, ↓reduceIte, h1, hk, hrem]
+    exact ⟨_, rfl⟩
+
+/-- `TopLevelKeyedMergeOrderedHook`: the front of every non-empty key queue of either input can be
+released next -/
+theorem tlKeyedMerge_every_candidate_reachable [DecidableEq κ] (m1 m2 : KMap κ α) (force : Bool) (log : List Call)
+    (idx : Nat) (second : Bool) (key : κ) (item : α) (mm : KMap κ α)
+    (hc : (candidates m1 m2)[idx]? = some (second, key))
+    (hrem : removeAt key 0 (if second then m2 else m1) = some (item, mm)) :
+    ∃ tape d', tlKeyedMergeAuto m1 m2 ⟨tape, log⟩ force
+      = some ([(key, item)], (if second then m1 else mm), (if second then mm else m2), true, d') := by
+  have hlen : idx < (candidates m1 m2).length := by
+    rcases Nat.lt_or_ge idx (candidates m1 m2).length with h | h
+    · exact h
+    · simp [List.getElem?_eq_none h] at hc
+  have hne : (candidates m1 m2).isEmpty = false := by
+    cases hq : candidates m1 m2 with
+    | nil => simp [hq] at hlen
+    | cons _ _ => simp
+  cases force with
+  | true =>
+    refine ⟨[idx], ?_⟩
+    unfold tlKeyedMergeAuto
+    simp only [hne, Bool.false_eq_true, ↓reduceIte, Bool.not_true, aux_boolIf_false]
+    have h1 := aux_natEx_hit 0 (candidates m1 m2).length idx log [] (Nat.zero_le _) hlen
+    simp only [Nat.sub_zero] at h1
+    simp only [h1, hc]
+    cases second with
+    | true => simp only [↓reduceIte] at hrem ⊢; simp only [hrem]; exact ⟨_, rfl⟩
+    | false => simp only [Bool.false_eq_true, ↓reduceIte] at hrem ⊢; simp only [hrem]; exact ⟨_, rfl⟩
+  | false =>
+    refine ⟨[0, idx], ?_⟩
+    unfold tlKeyedMergeAuto
+    simp only [hne, Bool.false_eq_true, ↓reduceIte, Bool.not_false]
+    have hb := aux_boolIf_hit false log [idx]
+    simp only [Bool.false_eq_true, ↓reduceIte] at hb
+    have h1 := aux_natEx_hit 0 (candidates m1 m2).length idx (.b false :: log) [] (Nat.zero_le _) hlen
+    simp only [Nat.sub_zero] at h1
+    simp only [hb, Bool.false_eq_true, ↓reduceIte, h1, hc]
+    cases second with
+    | true => simp only [↓reduceIte] at hrem ⊢; simp only [hrem]; exact ⟨_, rfl⟩
+    | false => simp only [Bool.false_eq_true, ↓reduceIte] at hrem ⊢; simp only [hrem]; exact ⟨_, rfl⟩
+
+/-- "release nothing" is reachable for the three keyed top-level hooks when not forced -/
+theorem tlKeyed_silence_reachable [DecidableEq κ] (m m2 : KMap κ α) (log : List Call) :
+    (∃ tape d', tlKeyedOrderAuto m ⟨tape, log⟩ false = some ([], m, false, d')) ∧
+    (∃ tape d', tlPartialAuto m ⟨tape, log⟩ false = some ([], m, false, d')) ∧
+    (∃ tape d', tlKeyedMergeAuto m m2 ⟨tape, log⟩ false = some ([], m, m2, false, d')) := by
+  have hb := aux_boolIf_hit true log []
+  simp only [↓reduceIte] at hb
+  refine ⟨?_, ?_, ?_⟩
+  · by_cases hq : (nonemptyKeys m).isEmpty = true
+    · exact ⟨[], ⟨[], log⟩, by simp [tlKeyedOrderAuto, hq]⟩
+    · exact ⟨[1], ⟨[], .b true :: log⟩, by simp [tlKeyedOrderAuto, hq, hb]⟩
+  · by_cases hq : (nonemptyKeys m).isEmpty = true
+    · exact ⟨[], ⟨[], log⟩, by simp [tlPartialAuto, hq]⟩
+    · exact ⟨[1], ⟨[], .b true :: log⟩, by simp [tlPartialAuto, hq, hb]⟩
+  · by_cases hq : (candidates m m2).isEmpty = true
+    · exact ⟨[], ⟨[], log⟩, by simp [tlKeyedMergeAuto, hq]⟩
+    · exact ⟨[1], ⟨[], .b true :: log⟩, by simp [tlKeyedMergeAuto, hq, hb]⟩
 
 
 end HvSim
